@@ -171,6 +171,15 @@ CHECKS = {
               'row for row; as_csv() re-read equals the result; JSON quantities equal the pre-print snapshot; parses identical under PYTHONHASHSEED 0/1/12345.'),
         design_ref='DESIGN.md section 4 C10',
         note='JSON-vs-report decided as JSON-vs-snapshot (C09 ties snapshot to text).'),
+    'C06': dict(
+        engine='xplore',
+        technique='finite complete enumeration per configuration family of (input parameter x catalogue unit) and (output parameter x catalogue unit) pairs on the real pipeline, each compared relationally with the run in the declared unit using an own conversion table',
+        category='exploration',
+        text=('Every float input parameter x every convertible catalogue unit: computed results equal (1e-7) and every report line denotes the same '
+              'quantity; every output parameter x convertible unit through the Units: directive: pre-print results identical, changed lines in the '
+              'requested unit, table columns change by the exact factor. Complete for the families listed.'),
+        design_ref='DESIGN.md section 4 C06',
+        note='Own conversion table vf/oracles/units_ref.py; exchange-rate currencies not exercised. 145 narrowly keyed open findings (the unit machinery of the pinned tree is broadly defective; an existing test pins the design that causes the echo defect).'),
 }
 
 
